@@ -115,7 +115,8 @@ func genDUID(r *Rng) dhcpv6.DUID {
 		return d
 	default:
 		t := r.Pick([]int{0, 5, 6, 255, 65535})
-		return &dhcpv6.DUIDOpaque{Type: dhcpv6.DUIDType(t), Data: r.Bytes(r.Range(0, 20))}
+		// RFC 8415: 1..128 octets after the type code (0 and 129+ only via the malformed wire streams)
+		return &dhcpv6.DUIDOpaque{Type: dhcpv6.DUIDType(t), Data: r.Bytes(r.Pick([]int{1, 2, 20, 128, r.Range(1, 128)}))}
 	}
 }
 
@@ -253,7 +254,12 @@ func genOpt6(r *Rng, code int, depth int, loose bool) dhcpv6.Option {
 				v := dhcpv6.NTPSuboptionMCAddr(ip6(r))
 				o.Suboptions = append(o.Suboptions, &v)
 			case 2:
-				o.Suboptions = append(o.Suboptions, &dhcpv6.NTPSuboptionSrvFQDN{Labels: *genLabels(r)})
+				l := genLabels(r)
+				if !loose {
+					// RFC 5908: exactly one FQDN
+					l = &rfc1035label.Labels{Labels: []string{genLabelName(r)}}
+				}
+				o.Suboptions = append(o.Suboptions, &dhcpv6.NTPSuboptionSrvFQDN{Labels: *l})
 			default:
 				o.Suboptions = append(o.Suboptions, &dhcpv6.OptionGeneric{OptionCode: dhcpv6.OptionCode(r.Pick([]int{0, 4, 99, 65535})), OptionData: r.Bytes(r.Range(0, 8))})
 			}
